@@ -1,18 +1,12 @@
 SPECIFICATION Spec
 CONSTANTS
   Design = "grader_bookkeeping"
-  Kind = "blocked"
+  Kind = "importer"
   MaxSteps = 2
   Inject = "base"
   Handback = "per_run"
   NextRun = "plain"
   ImportThread = "inline"
   defaultInitValue = defaultInitValue
-INVARIANT ExcIsTimeout
-INVARIANT ExcStable
-INVARIANT OneRuntimeFb
-INVARIANT StacksEmpty
-INVARIANT NoCrash
-INVARIANT NextRunClean
-CONSTRAINT ExportSched
+INVARIANT QuietReachable
 CHECK_DEADLOCK FALSE
